@@ -512,6 +512,24 @@ func main() {
 		{3, new(big.Int).Sub(new(big.Int).Lsh(one, 2048), one), "invalid-2^2048-1"},
 		{3, big.NewInt(0), "invalid-p=0"},
 	}
+	// groups that pass the residue table and the size check but are not safe primes: only the
+	// primality tests can refuse them (p+6 composite, p+570 prime with (p-1)/2 composite; verified here)
+	type badT = struct {
+		g    int
+		p    *big.Int
+		note string
+	}
+	if q := new(big.Int).Add(p, big.NewInt(6)); !q.ProbablyPrime(20) && crypto.CheckGP(3, q) == nil {
+		bad = append([]badT{{3, q, "invalid-composite-passing-residue-table"}, {4, q, "invalid-composite-g=4"}}, bad...)
+	} else {
+		c.Note("p+6 is not a composite passing the residue table: case skipped")
+	}
+	if q := new(big.Int).Add(p, big.NewInt(570)); q.ProbablyPrime(20) && crypto.CheckGP(3, q) == nil &&
+		!new(big.Int).Rsh(q, 1).ProbablyPrime(20) {
+		bad = append([]badT{{3, q, "invalid-prime-not-safe"}}, bad...)
+	} else {
+		c.Note("p+570 is not an unsafe prime passing the residue table: case skipped")
+	}
 	for g := 2; g <= 7; g++ {
 		if crypto.CheckGP(g, p) != nil {
 			bad = append(bad, struct {
